@@ -63,7 +63,10 @@ def run(ctx) -> None:
 
 
 MUTANTS = [
-    dict(id="key-dtypes-compared-with-nullability", module="table", old="				if left_schema.kind is not right_schema.kind:",
+    dict(id="all-none-key-column-refused", module="table",
+         old="				if left_schema.kind is not right_schema.kind and object not in (left_schema.kind, right_schema.kind):",
+         new="				if left_schema.kind is not right_schema.kind:", rules=["a.key-validation"], desc="the defect repaired by fix 6412498"),
+    dict(id="key-dtypes-compared-with-nullability", module="table", old="				if left_schema.kind is not right_schema.kind and object not in (left_schema.kind, right_schema.kind):",
          new="				if left_schema != right_schema:", rules=["a.key-validation"], desc="a None on one side of the key makes the join raise"),
     dict(id="bool-keys-rejected", module="table", old="			allowed_types = (int, str, bool, date, datetime, object)",
          new="			allowed_types = (int, str, date, datetime, object)", rules=["a.key-validation"]),
